@@ -95,6 +95,21 @@ var kinds = []kindT{
 	{Name: "go-arg", Go: true, Stmt: L("go take(mark(#1))")},
 	{Name: "labeled-for", Go: true, Stmt: L("L@:", "\tfor i := mark(#1) - #1; i < 1; i++ {", "\t\tcontinue L@", "\t}")},
 	{Name: "labeled-same-line", Go: true, Stmt: L("L@: for i := mark(#1) - #1; i < 1; i++ {", "\t\tcontinue L@", "\t}")},
+	// a label on its own line in front of every statement class whose header can carry a call (the labeled
+	// statement must get its own directive, not the label's); plain statements are goto targets
+	{Name: "labeled-for-cond", Class: "labeled", Go: true, Stmt: L("L@:", "\tfor mark(#1) < 0 {", "\t\tbreak L@", "\t}")},
+	{Name: "labeled-for-range", Class: "labeled", Go: true, Stmt: L("L@:", "\tfor _, v := range markS(#1) {", "\t\t_ = v", "\t\tcontinue L@", "\t}")},
+	{Name: "labeled-for-clause-cond", Class: "labeled", Go: true, Stmt: L("L@:", "\tfor ; mark(#1) < 0; {", "\t\tbreak L@", "\t}")},
+	{Name: "labeled-switch", Class: "labeled", Go: true, Stmt: L("L@:", "\tswitch mark(#1) {", "\tcase 0:", "\t\tbreak L@", "\t}")},
+	{Name: "labeled-typeswitch", Class: "labeled", Go: true, Stmt: L("L@:", "\tswitch markI(#1).(type) {", "\tcase int:", "\t\tbreak L@", "\t}")},
+	{Name: "labeled-select", Class: "labeled", Go: true, Stmt: L("L@:", "\tselect {", "\tcase v := <-markC(#1):", "\t\t_ = v", "\t\tbreak L@", "\t}")},
+	{Name: "labeled-expr-goto", Class: "labeled", Go: true, Stmt: L("if gone != 1 {", "\tgoto L@", "}", "L@:", "\tmark(#1)")},
+	{Name: "labeled-assign-goto", Class: "labeled", Go: true, Stmt: L("if gone != 1 {", "\tgoto L@", "}", "L@:", "\tgi = mark(#1)")},
+	{Name: "labeled-if-goto", Class: "labeled", Go: true, Stmt: L("if gone != 1 {", "\tgoto L@", "}", "L@:", "\tif mark(#1) > 0 {", "\t\tnop()", "\t}")},
+	{Name: "labeled-block-goto", Class: "labeled", Go: true, Stmt: L("if gone != 1 {", "\tgoto L@", "}", "L@:", "\t{", "\t\tmark(#1)", "\t}")},
+	{Name: "labeled-for-cond-gap", Class: "labeled", Go: true, Stmt: L("L@:", "", "\t// c", "\tfor mark(#1) < 0 {", "\t\tbreak L@", "\t}")},
+	{Name: "labeled-twice", Class: "labeled", Go: true, Stmt: L("if gone != 1 {", "\tgoto L@", "}", "L@:", "M@:", "\tfor mark(#1) < 0 {", "\t\tbreak M@", "\t}")},
+	{Name: "labeled-same-line-for-cond", Class: "labeled", Go: true, Stmt: L("L@: for mark(#1) < 0 {", "\t\tbreak L@", "\t}")},
 	{Name: "block-stmt", Go: true, Stmt: L("{", "\tmark(#1)", "}")},
 	{Name: "closure-call", Go: true, Stmt: L("func() {", "\tmark(#1)", "}()")},
 	{Name: "closure-value", Go: true, Stmt: L("callf(#9, func() int {", "\treturn mark(#1)", "})")},
@@ -121,6 +136,12 @@ var kinds = []kindT{
 	{Name: "forphrase-cond", Stmt: L("for v <- markS(#1) if v > 0 {", "\tmark(#2)", "}")},
 	{Name: "forphrase-cond-mark", Stmt: L("for v <- gone1 if mark(#1) > 0 {", "\t_ = v", "}")},
 	{Name: "for-in", Stmt: L("for v in markS(#1) {", "\t_ = v", "}")},
+	{Name: "labeled-forphrase", Class: "labeled", Stmt: L("L@:", "\tfor v <- markS(#1) {", "\t\t_ = v", "\t\tcontinue L@", "\t}")},
+	{Name: "labeled-forphrase-cond", Class: "labeled", Stmt: L("L@:", "\tfor v <- markS(#1) if v > 0 {", "\t\tmark(#2)", "\t\tcontinue L@", "\t}")},
+	{Name: "labeled-for-in", Class: "labeled", Stmt: L("L@:", "\tfor v in markS(#1) {", "\t\t_ = v", "\t\tcontinue L@", "\t}")},
+	{Name: "labeled-range-expr", Class: "labeled", Stmt: L("L@:", "\tfor i <- mark(#1)-#1:1 {", "\t\t_ = i", "\t\tcontinue L@", "\t}")},
+	{Name: "labeled-command-goto", Class: "labeled", Stmt: L("if gone != 1 {", "\tgoto L@", "}", "L@:", "\tmark #1")},
+	{Name: "labeled-listcomp-goto", Class: "labeled", Stmt: L("if gone != 1 {", "\tgoto L@", "}", "L@:", "\tgs = [mark(#1)+v for v <- gone1]")},
 	{Name: "range-expr-phrase", Stmt: L("for i <- mark(#1)-#1:1 {", "\t_ = i", "}")},
 	{Name: "range-expr-range", Stmt: L("for i := range mark(#1)-#1:1 {", "\t_ = i", "}")},
 	{Name: "range-expr-end", Stmt: L("for i <- 0:mark(#1)-#1+1 {", "\t_ = i", "}")},
